@@ -59,11 +59,26 @@ func Children(prefix []int, pts []vrt.Point, bound int) [][]int {
 	return out
 }
 
+// ChildrenOf is Children for a finished execution.  An execution that ran into the horizon is a violation
+// already (a loop that never ends); deviating at every one of its hundreds of thousands of points would only
+// find the same loop again, at the full cost of the horizon each time: such an execution is deviated from in
+// its first part only (and DFS gives up after a few of them).
+func ChildrenOf(prefix []int, r *vrt.Result, bound int) [][]int {
+	pts := r.Points
+	if r.Verdict == vrt.VHorizon {
+		if lim := len(prefix) + 2000; len(pts) > lim {
+			pts = pts[:lim]
+		}
+	}
+	return Children(prefix, pts, bound)
+}
+
 // DFS explores every execution that extends prefix within the bound.  visit is
 // called for every execution; it returns false to stop the search.  max caps
 // the number of executions (0 = none).
 func DFS(prefix []int, bound int, max int64, run RunFn, visit func(prefix []int, r *vrt.Result) bool) (Stats, error) {
 	var st Stats
+	horizons := 0
 	stack := [][]int{prefix}
 	for len(stack) > 0 {
 		p := stack[len(stack)-1]
@@ -90,7 +105,14 @@ func DFS(prefix []int, bound int, max int64, run RunFn, visit func(prefix []int,
 		} else if !visit(p, &r) {
 			break
 		}
-		kids := Children(p, r.Points, bound)
+		if r.Verdict == vrt.VHorizon {
+			horizons++
+			if horizons >= 4 {
+				st.Capped = true
+				break
+			}
+		}
+		kids := ChildrenOf(p, &r, bound)
 		// push in reverse so that the earliest deviation is explored first
 		for i := len(kids) - 1; i >= 0; i-- {
 			stack = append(stack, kids[i])
